@@ -615,6 +615,13 @@ def _gen_pih(rng, ctx):
     base = rng.uniform(91, 100)
     vals = [round(base + rng.uniform(0.5, 2.5) * i + rng.uniform(-0.1, 0.1), 6) for i in range(n)]
     rng.shuffle(vals)
+    if rng.random() < 0.2:
+        vals.sort(reverse=rng.random() < 0.5)        # observations booked in order
+    k = rng.random()
+    if k < 0.25:
+        vals = _array_kind(rng, {'$array': vals})    # a column of a caller's numpy table
+    elif k < 0.4:
+        vals = {'$tuple': vals}
     return [vals, rng.choice([0.1, 0.2, 0.5]), round(rng.uniform(0.01, 0.5), 3)]
 
 
